@@ -336,8 +336,10 @@ main(int ac, char **av) {
          */
         if(asn) {
             asn1p_module_t *mod;
-            while((mod = TQ_REMOVE(&(new_asn->modules), mod_next)))
+            while((mod = TQ_REMOVE(&(new_asn->modules), mod_next))) {
+                mod->asn1p = asn; /* new_asn is deleted below */
                 TQ_ADD(&(asn->modules), mod, mod_next);
+            }
             asn1p_delete(new_asn);
         } else {
             asn = new_asn;
@@ -504,6 +506,7 @@ importStandardModules(asn1p_t *asn, const char *skeletons_dir) {
         /* Import these modules and mark them as "standard" */
         while((mod = TQ_REMOVE(&(new_asn->modules), mod_next))) {
             mod->_tags |= MT_STANDARD_MODULE;
+            mod->asn1p = asn; /* new_asn is deleted below */
             TQ_ADD(&(asn->modules), mod, mod_next);
         }
         asn1p_delete(new_asn);
